@@ -45,6 +45,7 @@ M = [
  ('uniform_reseeds_in_update', ['C08'], 'ixai/storage/uniform_reservoir_storage.py', "        self.stored_samples += 1\n        if self.stored_samples <= self.size:", "        self.stored_samples += 1\n        random.seed(self.stored_samples)\n        if self.stored_samples <= self.size:"),
  ('geometric_reseeds_in_update', ['C09'], 'ixai/storage/geometric_reservoir_storage.py', "            random_float = random.random()\n", "            random.seed(len(x))\n            random_float = random.random()\n"),
  ('marginal_imputer_reseeds', ['C04'], 'ixai/imputer/marginal_imputer.py', "    def _sample_marginals(features, feature_subset):\n        rand_idx", "    def _sample_marginals(features, feature_subset):\n        random.seed(len(features))\n        rand_idx"),
+ ('pfi_skips_falsy_feature_names', ['C02', 'C15'], 'ixai/explainer/pfi.py', "            for feature in self.feature_names:\n", "            for feature in filter(None, self.feature_names):\n"),
  ('welford_var_sample_variance', ['C10', 'C20'], 'ixai/utils/tracker/welford.py', "return self.sum_squares / max(self.N, 1)", "return self.sum_squares / max(self.N - 1, 1)"),
 ]
 wt = '/tmp/wt/mkmut'
